@@ -130,16 +130,17 @@ def core (r : Row) : String × Nat × Nat × Nat × String := (r.path, r.md5, r.
 
 /-! ## file-scraping recovery (C17) -/
 
-/-- `md5list[row['md5']] = id` — the last row with a given hash wins -/
-def lastIndex (keys : List Nat) (k : Nat) : Option Nat :=
+/-- `hashlist[(row['md5'], row['sha1'])] = id` — the last row with a given pair of hashes wins
+(as repaired: a file is recognised by both hashes together; before, two separate dictionaries had
+to point to the same row, so a recorded file sharing ONE hash with a later row was never found) -/
+def lastIndex (keys : List (Nat × Nat)) (k : Nat × Nat) : Option Nat :=
   (keys.zipIdx.filter (fun ki => ki.1 = k)).getLast?.map (·.2)
 
 /-- the row a scraped content is recognised as, if any -/
 def recognise (E : Env) (db : List Row) (c : Bytes) : Option Row :=
-  let h := E.H c
-  match lastIndex (db.map (·.md5)) h.1, lastIndex (db.map (·.sha1)) h.2 with
-  | some i, some j => if i = j then db[i]? else none
-  | _, _ => none
+  match lastIndex (db.map (fun r => (r.md5, r.sha1))) (E.H c) with
+  | some i => db[i]?
+  | none => none
 
 structure OutFile where
   path : String
